@@ -12,6 +12,7 @@ fn render(items: &[Value], dir: &Path) -> String {
     for (k, it) in items.iter().enumerate() {
         match it["k"].as_str().unwrap() {
             "eoe" => t.push_str(&format!("exit_on_error {}\n", it.get("sp").and_then(|x| x.as_str()).map(|x| x.to_string()).unwrap_or(it["on"].to_string()))),
+            "seterr" => t.push_str("set_error se\n"),
             "obs" => t.push_str("e = get_last_error\nl = get_last_error_line\ns = get_last_error_source\nemit \"${e}\" \"${l}\" \"${s}\" \"${o}\"\n"),
             _ => {
                 let m = it["m"].as_str().unwrap();
@@ -32,7 +33,7 @@ fn render(items: &[Value], dir: &Path) -> String {
     t
 }
 fn msg_norm(m: &str) -> String {
-    if m.is_empty() || m == "m1" || m == "m two" { m.to_string() } else { "*".to_string() }
+    if m.is_empty() || m == "m1" || m == "m two" || m == "se" { m.to_string() } else { "*".to_string() }
 }
 fn file_norm(s: &str, main: &Path, dir: &Path) -> String {
     if s.is_empty() { String::new() } else if Path::new(s) == main { "M".into() } else if Path::new(s).parent() == Some(dir) { "I".into() } else { format!("?{}", s) }
@@ -52,6 +53,8 @@ pub fn observe(base: &Context, log: &Log, items: &[Value], file_mode: bool, dir:
         }
     }));
     let obs: Vec<Value> = log.borrow().iter().map(|e| { let a = strs(&e["args"]);
+        // after set_error the line / source are whatever the command leaves (not documented): normalised
+        if a[0] == "se" { return json!({"msg": "se", "line": 0, "file": "", "o": a[3]}); }
         json!({"msg": msg_norm(&a[0]), "line": a[1].parse::<i64>().unwrap_or(0), "file": if file_mode { file_norm(&a[2], &main, dir) } else { if a[2].is_empty() { if a[0].is_empty() { "".to_string() } else { "M".to_string() } } else { file_norm(&a[2], &main, dir) } }, "o": a[3]}) }).collect();
     match r {
         Err(_) => json!({"panic": true}),
@@ -118,6 +121,7 @@ pub fn record(args: &[String]) {
             items.push(match r.below(10) {
                 0..=4 => { let ctx = *r.pick(&["top", "fn", "loop", "branch", "script", "loopscript", "incl"]); json!({"k": "fail", "ctx": ctx, "m": if ctx == "script" || ctx == "loopscript" { "*" } else { *r.pick(&["m1", "m two"]) }}) }
                 5 => { let on = r.chance(1, 3); json!({"k": "eoe", "on": on, "sp": if on { *r.pick(&["true", "1", "yes"]) } else { *r.pick(&["false", "0", "no"]) }}) },
+                6 => json!({"k": "seterr"}),
                 _ => json!({"k": "obs"}),
             });
         }
